@@ -20,10 +20,19 @@ CONNECT_OK = b"HTTP/1.1 200 Connection established\r\n\r\n"
 
 def hs_configs(tier):
     cfgs = [("vmess.aes-128-gcm.tcp", {"protocol": "vmess", "cipher": "aes-128-gcm", "transport": "tcp", "client_mode": "tcp"})]
-    if tier == "thorough":
-        cfgs.append(("shadowsocks.2022-blake3-aes-128-gcm.tcp", {"protocol": "shadowsocks", "cipher": "2022-blake3-aes-128-gcm", "transport": "tcp", "client_mode": "tcp"}))
-        cfgs.append(("trojan.-.tls", {"protocol": "trojan", "cipher": None, "transport": "tls", "client_mode": "tcp"}))
+    # the other two protocols: every scenario in the thorough tier, a handful (LITE) in the quick tier - what the handshake leaves
+    # unread becomes the first message of a different codec
+    cfgs.append(("shadowsocks.2022-blake3-aes-128-gcm.tcp", {"protocol": "shadowsocks", "cipher": "2022-blake3-aes-128-gcm", "transport": "tcp", "client_mode": "tcp"}))
+    cfgs.append(("trojan.-.tls", {"protocol": "trojan", "cipher": None, "transport": "tls", "client_mode": "tcp"}))
     return cfgs
+
+
+LITE = ("socks5_ipv4/coalesced", "socks5_domain/early_data_coalesced", "socks5_ipv4/early_data_with_request", "connect_short+payload/whole",
+        "connect_3k+payload/split_before_last_byte", "plain_http/whole", "plain_http/head_3k/split@1024", "malformed/http_origin_form")
+
+
+def _lite_skip(tier, cname, name):
+    return tier == "quick" and not cname.startswith("vmess") and not any(name.endswith("/" + x) for x in LITE)
 
 
 def ipv6_loopback_works():
@@ -508,7 +517,7 @@ def suite_handshake(tier, seed, only):
         for kind in ("ipv4", "ipv6", "domain"):
             for vname, build in socks5_plans(kind, seed, tier, "%s/%s" % (cname, kind)):
                 name = "%s/socks5_%s/%s" % (base, kind, vname)
-                if not T.wanted(name, only):
+                if not T.wanted(name, only) or _lite_skip(tier, cname, name):
                     continue
                 if kind == "ipv6" and not v6:
                     results.append(T.result(name, spec, {"skipped": True}, {"skipped": "IPv6 loopback (::1) does not work in this sandbox"}, True, "skipped: no IPv6 loopback"))
@@ -517,11 +526,11 @@ def suite_handshake(tier, seed, only):
                 jobs.append(lambda name=name, sp=sp, build=build: run_positive(name, sp, seed, build))
         for vname, build in connect_plans(seed) + plain_plans():
             name = "%s/%s" % (base, vname)
-            if T.wanted(name, only):
+            if T.wanted(name, only) and not _lite_skip(tier, cname, name):
                 jobs.append(lambda name=name, build=build, spec=spec: run_positive(name, spec, seed, build))
         for vname, build, extra in audit_plans(seed):
             name = "%s/%s" % (base, vname)
-            if not T.wanted(name, only):
+            if not T.wanted(name, only) or _lite_skip(tier, cname, name):
                 continue
             if extra.get("_needs_v6") and not v6:
                 results.append(T.result(name, spec, {"skipped": True}, {"skipped": "IPv6 loopback (::1) does not work in this sandbox"}, True, "skipped: no IPv6 loopback"))
@@ -530,7 +539,7 @@ def suite_handshake(tier, seed, only):
             jobs.append(lambda name=name, build=build, sp=sp: run_positive(name, sp, seed, build))
         for mname, steps_fn, desc in malformed_cases():
             name = "%s/malformed/%s" % (base, mname)
-            if T.wanted(name, only):
+            if T.wanted(name, only) and not _lite_skip(tier, cname, name):
                 jobs.append(lambda name=name, steps_fn=steps_fn, desc=desc, spec=spec: run_malformed(name, spec, seed, steps_fn, desc))
     for r in results:
         T.report_line(r)
